@@ -1,5 +1,7 @@
 package geom
 
+import "math"
+
 const (
 	// counter-clockwise
 	ccw = iota - 1
@@ -20,4 +22,12 @@ func orientation(a, b, c P) int {
 		return cw
 	}
 	return cln
+}
+
+// collinear reports whether c lies on the line through a and b, up to the rounding error of the determinant.
+// It is used to locate points (is a point on a side or diagonal of the triangulation), where a point that is on a line
+// in exact arithmetic must not end up strictly beside it, on a different side depending on the order of a and b.
+func collinear(a, b, c P) bool {
+	l, r := (b.X-a.X)*(c.Y-a.Y), (b.Y-a.Y)*(c.X-a.X)
+	return math.Abs(l-r) <= 1e-9*(math.Abs(l)+math.Abs(r))
 }
